@@ -122,6 +122,9 @@ func verifHarness_C17_duplicates(k int, bad int) {
 	rw := &ReadWriter{Dialect: &Dialect{Version: 1, Messages: msgs}}
 	err := rw.Initialize()
 	verifAssert(verifIff(err != nil, verifOr(dup, bad != 0)), "C17/rejected-iff-duplicate-id-or-malformed-struct")
+	// trying again does not turn a rejected dialect into an accepted one (nor the reverse)
+	err2 := rw.Initialize()
+	verifAssert((err2 != nil) == (err != nil), "C17/same-verdict-when-initialized-again")
 	if err == nil {
 		for i := 0; i < k; i++ {
 			mp := rw.GetMessage(verifDynIDs[i])
